@@ -741,8 +741,11 @@ run_hist (kase const &k)
       if (op == 's')
 	{
 	  size_t eq = tok.find ('=');
-	  long id = std::stol (tok.substr (1, eq - 1));
+	  size_t at = tok.find ('@');
+	  long id = std::stol (tok.substr (1, (at != std::string::npos && at < eq ? at : eq) - 1));
 	  kase k2 = k;
+	  if (at != std::string::npos && at < eq)
+	    k2.dw = unhex (tok.substr (at + 1, eq - at - 1));	// this stack starts from another file
 	  k2.in = unhex (tok.substr (eq + 1));
 	  k2.has_in = true;
 	  std::string ierr;
